@@ -855,7 +855,7 @@ ENVS_OPTIMIZED = [
 ]
 
 
-def env_variant(modname, base_sc, envs=None, quick=2, thorough=40, cases=(6, 10)):
+def env_variant(modname, base_sc, envs=None, quick=2, thorough=40, cases=(20, 40)):
     """A sub-check that re-runs generated cases of `base_sc` in fresh interpreters with another process environment."""
     from hypothesis import strategies as st
 
